@@ -717,7 +717,7 @@ Definition F12_class (s : str) : bool := f12_scan s.
       a quote that opens right after, or closes right before, a word-like character; a `^` / `~`
       whose number is followed by something else than whitespace, `)` or the end (or a slop that
       does not fit u32); a `)` directly followed by a leaf; a `(` directly after a word; a negative
-      number directly followed by a word. *)
+      number directly followed by a word; a `~` without number; `++`, `**`; any backslash escape. *)
 Fixpoint has_sub (p s : str) (k : str -> bool) : bool :=
   match s with
   | [] => false
@@ -753,7 +753,7 @@ Fixpoint glue_num (s : str) : bool :=
   | c :: t =>
       (((c =? CARET) || (c =? TILDE)) &&
        (match after_number t with [] => false | d :: _ => negb (is_ms d || (d =? RP)) end
-        || ((c =? TILDE) && (4294967295 <? digits_val (fst (take_digits t))))))
+        || ((c =? TILDE) && ((4294967295 <? digits_val (fst (take_digits t))) || is_nil (fst (take_digits t))))))
       || glue_num t
   end.
 Fixpoint glue_paren (s : str) : bool :=
@@ -780,7 +780,8 @@ Definition F13_class (s : str) : bool :=
   || has_sub kw_NOT s (fun r => match r with c :: _ => (c =? 9) || (c =? 13) || (c =? 10) | [] => false end)
   || has_sub kw_NOT s kw_then_colon || has_sub kw_AND s kw_then_colon
   || has_sub kw_OR s kw_then_colon || has_sub kw_IN s kw_then_colon
-  || glue_quote 0 None s || glue_num s || glue_paren s || glue_open None s || glue_neg None s.
+  || glue_quote 0 None s || glue_num s || glue_paren s || glue_open None s || glue_neg None s
+  || in_tab BSL s || has_sub [PLUS; PLUS] s (fun _ => true) || has_sub [STAR; STAR] s (fun _ => true).
 
 (* F160: field_name accepts tab / CR / LF inside a field name (only the space character is in
    SPECIAL_CHARS): a word, then whitespace without any space character, then `field:` is read as one
